@@ -37,8 +37,8 @@ PROFILES = {
     "C06": dict(gen=dict(docs=0.0), options=[dict(), dict(convert=True)]),
     "C07": dict(gen=dict(docs=0.0, infer_returns=0.5, ties=0.3), options=[dict()]),
     "C10": dict(gen=dict(private_rate=0.3), options=[dict(), dict(convert=True)]),
-    "C11": dict(gen=dict(), options=[dict()]),
-    "C12": dict(gen=dict(private_rate=0.3, ties=0.4), options=[dict()]),
+    "C11": dict(gen=dict(twins=0.6), options=[dict()]),
+    "C12": dict(gen=dict(private_rate=0.3, ties=0.4, base_alias=0.7), options=[dict()]),
     "C13": dict(gen=dict(docs=0.85, reexports=False), options=[dict()]),
     "C20": dict(gen=dict(docs=0.0), options=[dict()]),
     "C14": dict(gen=dict(docs=1.0, doc_types="mixed", infer_returns=0.1), styles=["numpydoc", "google", "rest"],
